@@ -559,7 +559,10 @@ Fixpoint pop_while (fuel : nat) (a : N) (cond : pool -> list meta -> bool) (txs 
       else Ok (txs, ids, p)
   end.
 
-(* blobpool.go recheck *)
+(* blobpool.go recheck.  [legacy_gap = true] is the code before the repair of
+   C42-gap-after-stale-prefix: the gap was tested against the state only before the stale
+   prefix was dropped. *)
+Variable legacy_gap : bool.
 Definition recheck (a : N) (incl : option (list (N * N))) (p : pool) : res pool :=
   match aget (p_index p) a with
   | None => match incl with Some _ => Ok p | None => Err 1 end
@@ -601,6 +604,13 @@ Definition recheck (a : N) (incl : option (list (N * N))) (p : pool) : res pool 
         match txs1 with
         | [] => Err 1
         | f1 :: rest1 =>
+          (* repair of C42-gap-after-stale-prefix: what is left must start at the state nonce *)
+          if negb legacy_gap && (next <? m_nonce f1) then
+            let q1 := fold_left (fun q m => untrack m (sub_stored (m_size m) q)) txs1 p1 in
+            let q2 := set_spent (adel (p_spent q1) a) (set_index (adel (p_index q1) a) q1) in
+            do q3 <- (match incl with Some _ => heap_remove_addr q2 a | None => Ok q2 end) ;
+            store_dels (map m_sid txs1) q3
+          else
           let f1' := ev_first f1 in
           do r2 <- recheck_scan a f1' rest1 [f1'] p1 ;
           let '(txs2, p2) := r2 in
